@@ -101,7 +101,8 @@ def classify(b, vr):
         vres = res.get('verification-results', {})
         if vres.get('encountered-vir-error'):
             toolerrs.append('verus reported a VIR error')
-        if not vres.get('success') and not failures and not undecided and not toolerrs:
+        ok = vres.get('success', vres.get('errors', 1) == 0 and not vres.get('encountered-error'))
+        if not ok and not failures and not undecided and not toolerrs:
             toolerrs.append('verus reported failure without a classifiable diagnostic: ' + ' | '.join(vr['raw'][-5:]))
     return failures, undecided, toolerrs
 
